@@ -84,7 +84,25 @@ def check_random_range(ck, P, rid):
     rets = [r for r in f.walk() if r.k == "ReturnStmt"]
     inst = "range@Random"
     if len(pun) != 1 or len(rets) != 2:
-        ck.inconclusive(rid, inst, f.where, "Random() is not of the known bit-assembly shape", cfg)
+        # another construction: if it is plain floating arithmetic on the raw output, evaluate it in IEEE double arithmetic at the
+        # extreme raw outputs (an interval over the reals would miss that (double)(2^64 - 1) rounds up to 2^64)
+        worst = None
+        evaluated = 0
+        for r in rets:
+            if not r.children or r.children[0].k == "Null":
+                continue
+            e = Q.resolve_local(f, r.children[0])
+            for u in (0, 1, 2, (1 << 52) + 1, (1 << 53) - 1, (1 << 53) + 1, (1 << 63) - 1, 1 << 63, U64 - 2048, U64 - 1024, U64 - 1023, U64 - 1, U64):
+                v = _fev(e, {"RandomU64()": u})
+                if v is None:
+                    continue
+                evaluated += 1
+                if not (0.0 <= float(v) < 1.0) and worst is None:
+                    worst = (u, float(v))
+        if worst:
+            ck.violated(rid, inst, f.where, "for the raw generator output %d Random() returns %r, outside [0, 1): RandomRange then exceeds its maximum, Expent() takes log(0) and the topology library picks a region that does not exist" % worst, cfg)
+        else:
+            ck.inconclusive(rid, inst, f.where, "Random() is not of the known bit-assembly shape%s" % (" (no counterexample among %d extreme raw outputs evaluated in double arithmetic)" % evaluated if evaluated else ""), cfg)
         return
     m = pun[0]
     src = X.strip(X.callee_args(m)[1])
@@ -295,6 +313,8 @@ def _fev(n, env):
     if n.k == "CallExpr":
         if n.callee == "Random":
             return env.get("Random()")
+        if n.callee and (n.callee + "()") in env:
+            return env[n.callee + "()"]
         a = _fev(X.callee_args(n)[0], env) if X.callee_args(n) else None
         if a is None:
             return None
